@@ -68,12 +68,20 @@ def call_tokens(c):
     return t
 
 
-def model_line(log, avail, tt, nn, history):
-    t = ['J', str(len(log))]
+def model_line(log, avail, tt, nn, history, geom=None):
+    """geom None: table mode (J).  geom given: linked mode (K) - the reader is the C10/C11 model, times in eighths"""
+    sc = 8 if geom else 1
+    t = ['K' if geom else 'J', str(len(log))]
     for i, m in enumerate(log):
         ev = m['t'] == 'EVENT_NOTIFICATION'
-        t += [str(i), str(tnum(m['t'])), str(int(m['src'])), 'N' if (ev or m['p1'] is None) else str(int(m['p1'])),
+        t += [str(i), str(tnum(m['t'])), str(int(m['src'])), 'N' if (ev or m['p1'] is None) else str(int(m['p1']) * sc),
               '0' if ev else '1', '1' if ev else '0', '1']
+        if geom:
+            t += [str(geom['off'][i]), str(geom['size'][i])]
+    if geom:
+        t += [str(geom['fsize'])]
+        history = [dict(c, tr=None if c['tr'] is None else [None if c['tr'][0] is None else c['tr'][0] * 8,
+                                                            None if c['tr'][1] is None else c['tr'][1] * 8, c['tr'][2]]) for c in history]
     t += [str(len(avail))] + [str(a) for a in avail]
     trs = []
     for k, sel in tt.items():
@@ -171,13 +179,14 @@ def source_filter_effective(c, log):
     return any(m['t'] in types and m['src'] not in c['src'] for m in log)
 
 
-def judge(job, res, mline, want_corr=True):
+def judge(job, res, mline, want_corr=True, kline=None):
     """returns a list of issues: dict(kind='violation'|'corr'|'note', sig, text, case)"""
     issues = []
     log = job['log']
     late = sorted({m['src'] for m in log} - set(res['avail']))
     for hi, (h, outs) in enumerate(zip(job['histories'], res['hist'])):
         mo = parse_model(mline[hi], len(h)) if mline is not None else None
+        ko = parse_model(kline[hi], len(h)) if kline is not None else None
         for ci, (c, o) in enumerate(zip(h, outs)):
             k = json.dumps(c, sort_keys=True)
             f = res['fresh'][k]
@@ -234,6 +243,10 @@ def judge(job, res, mline, want_corr=True):
                 elif show_impl(o) != mo[ci]['H'] or show_impl(f) != mo[ci]['F']:
                     issues.append({'kind': 'corr', 'case': case,
                                    'text': 'DataLoader model and implementation differ on read(%s) after %d earlier read(s)' % (short(c), ci)})
+                elif ko is not None and (show_impl(o) != ko[ci]['H'] or show_impl(f) != ko[ci]['F']):
+                    cc = dict(case); cc.update({'linked_model_after_history': ko[ci]['H'], 'linked_model_fresh_loader': ko[ci]['F']})
+                    issues.append({'kind': 'corr', 'case': cc,
+                                   'text': 'DataLoader model composed with the C10/C11 reader model (linked mode) and implementation differ on read(%s) after %d earlier read(s)' % (short(c), ci)})
     return issues
 
 
@@ -248,10 +261,24 @@ def evaluate(ctx, model, jobs, tag='j', want_corr=True):
         for h in job['histories']:
             lines.append(model_line(job['log'], r['avail'], r['tt'], r['nn'], h))
     mout = vf.run_parallel(model, lines) if lines else []
+    # linked mode: the same histories with the reader being the extracted C10/C11 model instead of the tables
+    klines, kspans = [], []
+    if want_corr:
+        for job, r in zip(jobs, res):
+            g = r.get('geom')
+            if not g or 'exc' in g or len(g['off']) != len(job['log']) or any(c['tr'] is not None and c['tr'][2] is False and not any(m['p1'] is not None for m in job['log']) for h in job['histories'] for c in h):
+                kspans.append(None); continue
+            kspans.append((len(klines), len(job['histories'])))
+            for h in job['histories']:
+                klines.append(model_line(job['log'], r['avail'], {}, [], h, geom=g))
+    kout = vf.run_parallel(model, klines) if klines else []
     allissues = []
-    for job, r, sp in zip(jobs, res, spans):
+    for i, (job, r, sp) in enumerate(zip(jobs, res, spans)):
         ml = None if sp is None else mout[sp[0]:sp[0] + sp[1]]
-        allissues.append(judge(job, r, ml, want_corr))
+        ks = kspans[i] if want_corr and i < len(kspans) else None
+        kl = None if ks is None else kout[ks[0]:ks[0] + ks[1]]
+        allissues.append(judge(job, r, ml, want_corr, kl))
+    evaluate.linked = len(klines)
     return res, allissues
 
 
@@ -391,6 +418,7 @@ def run(ctx):
             case = dict(case); case['history'] = [short(c) for c in case['history']]
             ctx.violation(i['sig'], i['text'], case)
     ctx.count('correspondence-mismatches', ncorr)
+    ctx.count('histories-also-run-in-linked-mode', getattr(evaluate, 'linked', 0))
     if jobs:
         j = jobs[-1]
         ctx.sample({'log': [(m['t'], m['p1'], m['src']) for m in j['log']], 'history': [short(c) for c in j['histories'][0]],
@@ -405,7 +433,8 @@ def run(ctx):
     ctx.coverage['exhaustive'] = False
     ctx.trusted_base += ['Coq 8.16.1 kernel + vm_compute', 'extraction (ExtrOcamlBasic only) and ocaml/conv.ml + c12_driver.ml',
                          'hand transcription of DataLoader._read / MessageData.to_numpy control flow (held by correspondence)',
-                         'the reader (MixedLogReader + FileIndex) is abstract in the theorems; in the correspondence run its FileIndex[TimeRange] selections and '
+                         'linked mode: every history is also run with the reader being the extracted C10/C11 reader model (Models/LogReaderM.v, FileIndexOpsM.v through Models/DataLoaderLinkM.v; proved equal to the environment of the composed theorems), table mode kept as the primary correspondence',
+                         'the reader (MixedLogReader + FileIndex) is abstract in the C12 theorems proper; in the correspondence run its FileIndex[TimeRange] selections and '
                          'available source ids are taken from the implementation itself (C10/C13 own their semantics)',
                          'DataLoader.time_align_data is abstract in the theorems; align_impl (np.intersect1d/np.unique on P1 seconds, NaN never matches) re-implements it for the correspondence run (C15 owns it)',
                          'translators/gen_c12.py (ast: params keys, deque-break guard; interpreter: type tables, defaults, alignment modes)',
